@@ -135,10 +135,29 @@ class Built(object):
         import AdvancedHTMLParser as AHP
         self.AHP = AHP
         self.parser = (parser_cls or AHP.AdvancedHTMLParser)(**kw)
-        self.parser.parseStr(render(node))
+        html = render(node)
+        # the parser object has a history: it held the same text before (other element objects with the same ids, names,
+        # classes) and was searched; what it answers now must come from the document it holds now
+        self.parser.parseStr(html)
+        old = self.parser.getRoot()
+        if old is not None:
+            for e in [old] + list(old.getAllChildNodes())[:40]:
+                i = e.getAttribute('id')
+                if i:
+                    self.parser.getElementById(i)
+            self.parser.getElementsByTagName(old.tagName)
+        self.parser.parseStr(html)
         self.els = []
         self._walk(self.parser.getRoot())
         self.idx = {e.uid: i for i, e in enumerate(self.els)}
+        # collections handed out are the caller's: emptying them changes no later answer
+        for e in self.els[:12]:
+            c = e.getAllChildNodes()
+            for x in list(c):
+                c.remove(x)
+        for c in (self.parser.getAllNodes(), self.parser.getRootNodes()):
+            if isinstance(c, list):
+                del c[:]
 
     def _walk(self, e):
         self.els.append(e)
@@ -254,6 +273,8 @@ def run_query(B, recv, op, extra=None):
     ids = B.ids(r)
     if sorted(B.idx.get(u, -1) for u in r.uids) != sorted(ids):
         return ['uids-differ'] + ids
+    for x in list(r):           # the answer is the caller's collection: emptying it changes no later answer
+        r.remove(x)
     return ['ok'] + ids
 
 
